@@ -188,7 +188,10 @@ def _gen_droplet_tracker(rng, grid, collection):
     # how the stored fields are analysed afterwards: from memory, from a file storage written
     # to and read back from the (simulated) disk, by worker processes (simulated pool, later
     # frames finishing first), or with the progress display on / left to its default
-    o["offline"] = rng.choice(["memory", "memory", "file", "parallel", "progress", "progress_default"])
+    o["offline"] = rng.choice(["memory", "memory", "file", "parallel", "parallel_progress",
+                               "progress", "progress_default"])
+    # the tracker's file may exist already, holding the (longer) result of an earlier run
+    o["stale_file"] = rng.choice([0, 0, 0, 5, 14])
     if collection:
         o["source"] = rng.choice([1, 0, "second", "first"])
     else:
@@ -472,6 +475,20 @@ def execute(case: dict) -> Outcome:
                 tr = droplets.DropletTracker(
                     ints, filename=f"{simfs.ROOT}/droplets_{ti}.h5" if spec["filename"] else None,
                     emulsion_timecourse=pre, source=resolve_source(spec.get("source")), **kw)
+            if spec.get("stale_file") and spec["filename"]:
+                # an older, longer time course already sits at the tracker's path
+                r2 = random.Random(4321 + spec["stale_file"])
+                old_spec = gen.random_collection(r2, "etc", hetero_rate=0.0)
+                while not old_spec["frames"]:
+                    old_spec = gen.random_collection(r2, "etc", hetero_rate=0.0)
+                k = spec["stale_file"]
+                old_spec["frames"] = (old_spec["frames"] * k)[:k]
+                old_spec["times"] = [float(i) for i in range(k)]
+                try:
+                    gen.build(old_spec).to_file(f"{simfs.ROOT}/droplets_{ti}.h5")
+                    cnt.inc("probe.stale_file_present")
+                except Exception:
+                    pass
             tr._verif_prefill_fp = gen.fingerprint(pre) if pre is not None else None
             tr._verif_prefill_n = spec.get("prefill", 0)
         else:
@@ -949,6 +966,10 @@ def _offline_analysis(how, st, kw, fs, cnt):
     if how == "parallel":
         with simexec.PoolScript(auto_workers=3, choices=[2, 1, 0, 1], counters=cnt):
             return droplets.EmulsionTimeCourse.from_storage(st, num_processes=3, progress=False, **kw)
+    if how == "parallel_progress":
+        with simexec.PoolScript(auto_workers=3, choices=[2, 1, 0, 1], counters=cnt), \
+                contextlib.redirect_stderr(io.StringIO()):
+            return droplets.EmulsionTimeCourse.from_storage(st, num_processes=3, progress=True, **kw)
     if how in ("progress", "progress_default"):
         with contextlib.redirect_stderr(io.StringIO()):
             if how == "progress":
